@@ -76,12 +76,36 @@ func (c *c13Run) BeginCase(i int, desc string) {
 	c13ViolMu.Unlock()
 }
 
+// Violation records one refuting observation. The kit keeps only the first few
+// violations of a unit, so (1) a signature is recorded once per run and its
+// repetitions are only counted, and (2) divergences inside the log families
+// that exist to isolate a command pattern (chmig, gc, subdel, cleanup) are
+// reported under ONE signature per family ("batch-divergence:family-<name>",
+// the detailed signature moves into the witness). A family with a known defect
+// then occupies one slot and cannot crowd out a signature of the core family.
 func (c *c13Run) Violation(sig string, witness any) {
 	c13ViolMu.Lock()
+	defer c13ViolMu.Unlock()
+	if j := strings.Index(sig, ":family-"); j >= 0 {
+		fam := sig[j+len(":family-"):]
+		if k := strings.IndexByte(fam, ':'); k >= 0 {
+			fam = fam[:k]
+		}
+		if fam != "core" {
+			witness = map[string]any{"detailed_signature": sig, "case": c.caseIdx, "witness": witness}
+			sig = "batch-divergence:family-" + fam
+		}
+	}
+	if c13SeenSig[sig] {
+		c.Run.Count("violations_repeated."+sig, 1)
+		return
+	}
+	c13SeenSig[sig] = true
 	c.Run.BeginCase(c.caseIdx, c.desc)
 	c.Run.Violation(sig, witness)
-	c13ViolMu.Unlock()
 }
+
+var c13SeenSig = map[string]bool{}
 
 type c13Hard struct {
 	Entry c13Entry
